@@ -374,6 +374,57 @@ Section LogP.
       rewrite (IH fs1 (lset_nth mods id m1) m1 fs' m' (lset_nth_get _ _ _ _ Hm) Hrun).
       now rewrite lset_nth_twice.
   Qed.
+
+  (* ---- reset() / sensitivity() between the responses change neither the instances nor the files ---- *)
+  Lemma lset_nth_length {A} : forall (l : list A) k x, length (lset_nth l k x) = length l.
+  Proof. induction l as [|a l IH]; intros [|k] x; cbn; try reflexivity. now rewrite IH. Qed.
+
+  Lemma quiet_event_noop w e w' : l_quiet V e = true -> log_event w e = Ok w' -> w' = w.
+  Proof.
+    destruct w as [fs mods]. destruct e as [sv sp|i sg|n c|n|i|i]; cbn [l_quiet]; try discriminate; intros _;
+      unfold Log.log_event; destruct (nth_error mods i); intros H; now inversion H.
+  Qed.
+
+  Lemma quiet_event_valid fs mods e : l_quiet V e = true ->
+    match e with LReset i | LSens i => (i < length mods)%nat | _ => True end -> log_event (fs, mods) e = Ok (fs, mods).
+  Proof.
+    destruct e as [sv sp|i sg|n c|n|i|i]; cbn [l_quiet]; try discriminate; intros _ Hi; unfold Log.log_event;
+      (destruct (nth_error mods i) eqn:E; [reflexivity|apply nth_error_None in E; lia]).
+  Qed.
+
+  (* whatever a history with reset / sensitivity events leaves behind, the history without them leaves behind too *)
+  Theorem world_run_strip : forall events w w',
+    log_world_run w events = Ok w' -> log_world_run w (l_strip V events) = Ok w'.
+  Proof.
+    induction events as [|e rest IH]; intros w w' H; cbn [log_world_run l_strip filter] in *; [exact H|].
+    destruct (log_event w e) as [w1|x] eqn:He; [|discriminate].
+    destruct (l_quiet V e) eqn:Hq; cbn [negb].
+    - rewrite (quiet_event_noop _ _ _ Hq He) in H. apply IH. exact H.
+    - cbn [log_world_run]. rewrite He. apply IH. exact H.
+  Qed.
+
+  (* the calls of one instance, with reset / sensitivity events of ANY existing instance in between (also before the
+     first and after the last call), are the run of log_fs_run on the calls alone: same files, same iteration number *)
+  Theorem world_calls_with_resets id : forall events calls fs mods m fs' m',
+    nth_error mods id = Some m ->
+    Forall (fun e => match e with LCall i _ => i = id | LReset i | LSens i => (i < length mods)%nat | _ => False end) events ->
+    l_strip V events = map (LCall id) calls ->
+    log_fs_run fs m calls = Ok (fs', m') ->
+    log_world_run (fs, mods) events = Ok (fs', lset_nth mods id m').
+  Proof.
+    induction events as [|e rest IH]; intros calls fs mods m fs' m' Hm Hall Hstrip Hrun.
+    - destruct calls; [|discriminate]. cbn in *. inversion Hrun; subst. now rewrite lset_nth_same.
+    - inversion Hall as [|e0 r0 He Hrest]; subst. cbn [log_world_run].
+      destruct e as [sv sp|i sg|n c|n|i|i]; try contradiction.
+      + subst i. cbn [l_strip filter l_quiet negb] in Hstrip. destruct calls as [|c calls]; [discriminate|].
+        cbn [map] in Hstrip. injection Hstrip as Hc Hstrip. subst c.
+        cbn [Log.log_fs_run] in Hrun. destruct (log_response fs m sg) as [[fs1 m1]|x] eqn:Hs; [|discriminate].
+        unfold Log.log_event. rewrite Hm, Hs.
+        rewrite (IH calls fs1 (lset_nth mods id m1) m1 fs' m' (lset_nth_get _ _ _ _ Hm)); [now rewrite lset_nth_twice| |exact Hstrip|exact Hrun].
+        eapply Forall_impl; [|exact Hrest]. intros a Ha. destruct a; try exact Ha; now rewrite lset_nth_length.
+      + rewrite (quiet_event_valid fs mods (LReset i) eq_refl He). eapply IH; eauto.
+      + rewrite (quiet_event_valid fs mods (LSens i) eq_refl He). eapply IH; eauto.
+  Qed.
 End LogP.
 
 (* ---- C order: the multi-indices of a shape are visited with offsets 0, 1, 2, ... ---- *)
